@@ -36,6 +36,7 @@ class PE:
         self.u = unit
         self.memo = {}
         self.call_default = call_default or {}     # callee name -> value assumed for its result (e.g. status 0)
+        self.out_default = {}                      # callee name -> {arg index: value stored through that &var argument}
 
     # ---- expression evaluation with a key->value binding
     def _hook(self, bind, callvals):
@@ -67,6 +68,23 @@ class PE:
                     if bind[kk] == UNSURE:
                         raise r_mpt.Unknown()
                     return bind[kk]
+                if k == "mem" and "t" in n and u.type(n["t"])["k"] == "arr":
+                    return self._addr(n, rec)        # an array member used as a pointer: its address
+                return None
+            if k == "un" and n.get("op") == "&":
+                return self._addr(strip_casts(n["e"]), rec)
+            if k == "bin" and n["op"] in ("+", "-") and "t" in n["x"] and "t" in n["y"]:
+                tx, ty = u.type(n["x"]["t"]), u.type(n["y"]["t"])
+                px, py = tx["k"] in ("ptr", "arr"), ty["k"] in ("ptr", "arr")
+                if px and not py:
+                    es = u.elem_size(n["x"]["t"]) or 1
+                    return rec(n["x"]) + (rec(n["y"]) * es if n["op"] == "+" else -rec(n["y"]) * es)
+                if py and not px and n["op"] == "+":
+                    es = u.elem_size(n["y"]["t"]) or 1
+                    return rec(n["y"]) + rec(n["x"]) * es
+                if px and py and n["op"] == "-":
+                    es = u.elem_size(n["x"]["t"]) or 1
+                    return (rec(n["x"]) - rec(n["y"])) // es
                 return None
             if k == "cast" and "cv" not in n:
                 t = u.type(n["t"]) if "t" in n else None
@@ -98,6 +116,29 @@ class PE:
                 return None
             return None
         return hook
+
+    def _addr(self, lv, rec):
+        """address of an lvalue  p->f / s.f / a[i] / *p  built from bound pointers and record layouts"""
+        u = self.u
+        k = lv.get("k")
+        if k == "mem":
+            rc = u.records.get(lv.get("rec"))
+            off = None
+            for f in (rc or {}).get("fields", []):
+                if f["n"] == lv["f"]:
+                    off = f["off"] // 8
+            if off is None:
+                raise r_mpt.Unknown()
+            base = rec(lv["b"]) if lv.get("arrow") else self._addr(strip_casts(lv["b"]), rec)
+            return base + off
+        if k == "sub":
+            es = u.elem_size(lv["b"]["t"]) if "t" in lv["b"] else None
+            return rec(lv["b"]) + rec(lv["i"]) * (es or 1)
+        if k == "un" and lv.get("op") == "*":
+            return rec(lv["e"])
+        if k == "cast":
+            return self._addr(lv["e"], rec)
+        raise r_mpt.Unknown()
 
     def depends(self, e, bind):
         """is the value of e (partly) determined by the binding?  A value read from memory through a bound pointer is
@@ -183,6 +224,25 @@ class PE:
             res.append((nb, sure))
         return res
 
+    def _addr_taken(self, e, b):
+        """variables whose address is passed on lose their value, unless the callee's stored value is tabled"""
+        nb = b
+        for x, _ in walk(e):
+            if x.get("k") == "call":
+                od = self.out_default.get(x.get("fn"), {})
+                for i, a in enumerate(x["args"]):
+                    a0 = strip_casts(a)
+                    if a0.get("k") == "un" and a0.get("op") == "&":
+                        kk = key(strip_casts(a0["e"]))
+                        if i in od:
+                            nb = dict(nb)
+                            v = od[i]
+                            nb[kk] = v(nb) if callable(v) else v
+                        elif kk in nb:
+                            nb = dict(nb)
+                            nb[kk] = UNSURE
+        return nb
+
     def step_block(self, fn, bid, bind, sure, depth, stop=None):
         """run the statements of a block; returns list of (bind, sure, stopped)"""
         states = [(bind, sure)]
@@ -196,7 +256,7 @@ class PE:
             nxt = []
             for b, s in states:
                 if k == "bin" and e["op"] == "=":
-                    for nb, s2 in self._assign(e["x"], e["y"], b, depth):
+                    for nb, s2 in self._assign(e["x"], e["y"], self._addr_taken(e["y"], b), depth):
                         nxt.append((nb, s and s2))
                 elif k == "bin" and e["op"].endswith("=") and e["op"] not in ("==", "!=", "<=", ">="):
                     nb = dict(b)
@@ -216,6 +276,7 @@ class PE:
                         c2 = []
                         for bb, ss in cur:
                             if dv.get("init") is not None:
+                                bb = self._addr_taken(dv["init"], bb)
                                 for nb, s2 in self._assign({"k": "ref", "n": dv["n"], "id": dv["id"]}, dv["init"], bb, depth):
                                     c2.append((nb, ss and s2))
                             else:
@@ -223,14 +284,7 @@ class PE:
                         cur = c2
                     nxt.extend(cur)
                 else:
-                    nb = b
-                    for x, _ in walk(e):
-                        if x.get("k") == "un" and x.get("op") == "&":
-                            kk = key(strip_casts(x["e"]))
-                            if kk in nb:
-                                nb = dict(nb)
-                                nb[kk] = UNSURE
-                    nxt.append((nb, s))
+                    nxt.append((self._addr_taken(e, b), s))
             states = nxt[:16]
         return [(b, s, False) for b, s in states]
 
